@@ -72,7 +72,7 @@ INTRO = {
             "Every meta procedure is a branch of `meta_call` over the owning tables. `*_count_is_length`, `listed_*_fetchable`, `*_unknown_id_errors`, `registration_match_agrees` "
             "(= the registration `call` routes to, same oracle), `subscription_match_agrees` (= the subscriptions `publish` delivers through), the event-order theorems, `not_echoed`, the `*_refused_silent` family, "
             "`kill_exact` / `kill_by_attr_exact` / `kill_all_exact` (never the caller), `add_testament_exact`, `flush_testaments_exact`.",
-            "Limits: `listed_registrations_fetchable_partial` needs the dealer invariant as hypothesis. As coded: the procedure is registered under the misspelt URI `wamp.subscription.count_suscribers`."),
+            "Limits: `listed_registrations_fetchable_partial` needs the dealer invariant as hypothesis. `RealmConfig.MetaIncludeSessionDetails` (extra keys kept in strict mode) is not modelled; the harness leaves it empty. As coded: the procedure is registered under the misspelt URI `wamp.subscription.count_suscribers`."),
     "C20": ("Event history returns the retained publications, and only those", "history",
             "`store_is_last_N(_init)`: for every operation list the store of a configured subscription holds the last ≤ N matching publications without `exclude`/`eligible` keys, in order; "
             "`restricted_never_stored`; `retention_independent_of_subscribers` (subscribe / unsubscribe / leave removed from the history change nothing; a subscription with a store is never deleted — the repaired defect); "
@@ -94,6 +94,19 @@ HIST = {
            "(a further chunk); `no_invocation_after_unregistered_partial` — after UNREGISTERED r, an INVOCATION naming r reaches the session only if REGISTERED r was sent to it in between or it is a further chunk "
            "of a call routed earlier. As literally worded (no exception for further chunks) the statement is false of model and code (`invocation_after_unregistered_refuted`: shared registration, progressive call "
            "in flight): the call in progress continues by design.",
+    "C01": "*Over whole histories* (`coq/Props/HistoriesC01.v`, proofs `Router/RealmTraceC01*.v`): the lifting rests on `step_decomp` — every `Realm.step` is, exactly and with no hypothesis, a threaded "
+           "sequence `segs_step r o` of broker operations (SUBSCRIBE, UNSUBSCRIBE, removal, PUBLISH by a client or by the meta session) interleaved with non-broker outputs. A per-(session, subscription) monitor — flag set by "
+           "SUBSCRIBED, reset by the acknowledged UNSUBSCRIBE, by ABORT/GOODBYE to the session, by its transport drop — never fails on any history (`realm_sub_discipline`); readably, every EVENT is preceded by a SUBSCRIBED for "
+           "that subscription to that session with no reset in between (`realm_event_only_to_subscriber`, full without authorizer). Without a hypothesis on the authorization gate this is false of the model and of `authzMessage` "
+           "(an authorizer may rewrite UNSUBSCRIBE 1 into UNSUBSCRIBE 2: `realm_sub_discipline_refuted`, six operations — `authorizer.go` documents that the Authorizer may alter the message, so this is a limit of the statement, not a defect); "
+           "the `_partial` theorems carry `along gate_unsub_id`, discharged for realms without authorizer and for authorizers that never alter an UNSUBSCRIBE. At every REACHABLE state the output of the step handling an admitted PUBLISH "
+           "is exactly the PUBLISHED plus one EVENT per matching, attached, allowed, non-excluded (subscription, subscriber) pair and nothing else (`realm_publish_exact`; likewise meta publications, refusals, the passthru ABORT). "
+           "Publication ids sent in a step exceed every id sent earlier, never decrease along the trace, and one PUBLISH uses the single id `pg+1` (`realm_event_pubid_fresh`, `realm_pubids_monotone`, `realm_publish_one_id`).",
+    "C20": "*Over whole histories* (`coq/Props/HistoriesC20.v`, proofs `Router/RealmTraceC20*.v`): `realm_pubs cfg ops` is the list of broker operations of the history, each PUBLISH by an admitted client or by the meta session "
+           "(`realm_pubs_by`). After EVERY history the store of each configured history subscription holds exactly the last ≤ limit accepted, matching, unrestricted publications of that list — by clients and by the meta session "
+           "(meta events, testaments) — in order, independent of subscription operations (`realm_store_is_last_N`, `realm_retention_independent_of_subscribers`, `realm_restricted_never_stored`). At any point "
+           "`wamp.subscription.get_events` changes nothing and returns the query function of `Props/C20.v` applied to that list, hence only entries published earlier in the history (`realm_get_events_sound`, "
+           "`realm_get_events_only_published`; stated at `meta_call` level, the CALL path shown by example).",
     "C05": "*Over whole histories* (`coq/Props/HistoriesC05.v`): `ended_session_silent` — once a session was attached before op i and is not after it, no later step's output is addressed to it until a JOIN with "
            "that id occurs; `attached_only_by_join`.",
 }
